@@ -76,6 +76,8 @@ def cases(tier, seed):
                                            "alias_prob": 0.25, "offset_prob": 0.2,
                                            "dense_prob": 0.9, "pool": None, "crowd_prob": 0.35}):
         spec["kind"] = "run"
+        if len(out) % 8 == 3 and "--clean" not in spec["opts"]:
+            spec["enc"] = "cif"
         out.append(spec)
     # long stretches / whole chains of the real proteins
     for spec in workload.long_cases(seed, 7 if tier == "quick" else 420, opts_fn=opts,
@@ -170,6 +172,18 @@ def check_endstate(res, spec, m, r, opts):
     tord = {id(t): k for k, t in enumerate(m["truth"])}
     nomove = opts.clean or opts.assign_only or (opts.nodebump and opts.noopt)
     any_moved = False
+    # every input residue must be found at its input coordinates (matching is by coordinates: a residue none of whose
+    # atoms sits where the file put it was moved as a whole, or read from the wrong columns)
+    located = {id(tr) for _r, tr in pairs if tr is not None}
+    if _nb == len(m["truth"]):
+        lostres = [t for t in m["truth"] if t["kind"] in ("aa", "na") and id(t) not in located]
+        res.count("input_residues_located", len(located))
+        if lostres:
+            res.count("input_residues_not_located", len(lostres))
+            res.violate("endstate/input-residue-not-at-its-input-coordinates", f"{len(lostres)} of {len(m['truth'])} input "
+                        f"residues have no atom at its input coordinates in the final model, e.g. "
+                        f"{[(t['resn'], t['chain'], t['resi']) for t in lostres[:4]]}", ff=spec["ff"], opts=spec["opts"],
+                        seed=spec["seed"], w=spec["w"], enc=spec.get("enc", "pdb"))
     # the written file is what the user gets: an input heavy atom that did not move in the model must be written with
     # exactly its input coordinates (three decimals)
     written = match.written_atoms(r.bio, r.missed)
@@ -256,8 +270,15 @@ def run_run(spec, res):
     geom.install()
     m = workload.materialise(spec)
     geom.drain()
+    text, suffix = m["text"], ".pdb"
+    if spec.get("enc") == "cif" and "items" in m:
+        # the same structure handed over as mmCIF (column layouts varied): coordinates are data, whatever the encoding
+        from ..gen import cifwriter
+        lay = ["wwpdb", "short", "extra", "shuffled", "esd"][spec["seed"] % 5]
+        text, suffix = cifwriter.write(m["items"], layout=lay, rng=random.Random(spec["seed"] + 31)), ".cif"
+        res.count("cif_encoded_inputs")
     with pkastub.for_opts(spec["opts"], m["truth"], spec["seed"]) as titr:
-        r = pipeline.run(m["text"], spec["opts"], workname="c04")
+        r = pipeline.run(text, spec["opts"], workname="c04", suffix=suffix)
     ev, counts = geom.drain()
     res.count("runs")
     if titr is not None:
